@@ -156,6 +156,16 @@ def main():
                 crate.add_case(cid, f"#[::entrait::{mac}({opts})]\n{single}\n")
                 origin[cid] = ("options-fn", None)
                 k += 1
+    # attributes below entrait on an impl block: everything except async_trait stays on the inherent impl
+    IATTRS = ["#[automock]", "#[mockall::automock]", "#[::mockall::automock]", "/// doc", "#[allow(dead_code)]", "#[cfg(all())]", "#[rustfmt::skip]",
+              "#[::async_trait::async_trait]", "#[automock]\n#[allow(dead_code)]", "#[deprecated]\n#[::async_trait::async_trait]\n#[automock]"]
+    for k2, ia in enumerate(IATTRS):
+        for kind in ("", "ref"):
+            cid = f"q{k2:02d}{'d' if kind else 's'}"
+            asy = "async " if "async_trait" in ia else ""
+            crate.add_case(cid, f"pub trait TI<T>: 'static {{ }}\npub struct X;\n#[::entrait::entrait({kind})]\n{ia}\nimpl TI for X {{\n"
+                                f"    pub {asy}fn f<D: Sync>(d: &D, a: u32) -> u32 {{ a }}\n}}\n")
+            origin[cid] = ("attrs-impl", None)
     nrand = 6000 if thorough else 1500
     for n in range(nrand):
         kind, attr, item = soup.gen_case(rng, n)
@@ -228,7 +238,7 @@ def main():
     chk.cov["by_origin"] = kinds
     chk.cov["accepted_by_macro"] = sum(1 for m in meta.values() if m["expanded"])
     chk.cov["distinct_nontrivial"] = len({json.dumps(e["l1"]["toks"]) for e in events if e["obs"]["expanded"] and len(e["l1"]["toks"]) > 8})
-    chk.cov["rule"] = ("(a) every catalogue body of spec/Items.tla (mod and impl) up to the tier's item bound, (a') 11 option sets x 3 item visibilities x both macro names on a module and a fn, (b) seeded random "
+    chk.cov["rule"] = ("(a) every catalogue body of spec/Items.tla (mod and impl) up to the tier's item bound, (a') 11 option sets x 3 item visibilities x both macro names on a module and a fn, 10 attribute lists on static and dyn impl blocks, (b) seeded random "
                        "fn/mod/impl inputs with attributes, qualifiers and macro-embedded token soups (gen/soup.py), (c) every "
                        "invocation of the repository's tests/it suite; non-trivial = accepted by the macro and > 8 tokens; "
                        "distinct by input token sequence")
